@@ -17,6 +17,7 @@ EXPLANATION = (
     '(no output equals a rewritten key or contains a rewritten character), and the reader keeps the escaped spelling '
     'apart from deleting backslashes.  The round trip for arbitrary categories depends on C05 and is not decided here.'
     " read_auto may repair treebank glitches only on whole fields (never by whole-line replace / regex substitution), and the value of a leaf's last field -- truncated by next() when the leaf ends the line -- must not be used."
+    ' Third round: read_auto hands the whole line to the reader (no cut at a marker); every node record read yields a node carrying its category.'
 )
 TRUSTED = ['CPython ast', 'sa/pysym.py path walker', 'rule table DESIGN.md C08']
 
@@ -75,6 +76,7 @@ def r_read_auto(repo, rep, R='R8.5'):
     w = '%s:%s read_auto' % (RD, fn.lineno)
     seen = False
     bad = []
+    cut = []
     for st, o in SymExec(fn, unroll=1).run():
         for c_ in all_calls(st, N('_AutoLineReader')):
             seen = True
@@ -97,8 +99,21 @@ def r_read_auto(repo, rep, R='R8.5'):
                 if s_[0] == 'call' and s_[1][0] == 'attr' and s_[1][2] in ('sub', 'subn') and len(s_[2]) >= 2 and (whole_line(s_[2][1]) or any(
                         x[0] == 'call' and x[1][0] == 'attr' and x[1][2] in ('replace', 'sub') for x in subterms(s_[2][1]))):
                     bad.append(show(s_)[:80])
+                # a cut: line[:k], line.partition(..)[0], line.split('#')[0] ... -- words and tags may contain any printable
+                # character, so no marker inside a line can be taken for the start of a comment
+                def file_line(t):
+                    if t[0] == 'elem':
+                        return not any(x[0] == 'call' and x[1][0] == 'attr' and x[1][2] in ('split', 'rsplit') for x in subterms(t[1]))
+                    return t[0] == 'call' and t[1][0] == 'attr' and t[1][2] in ('strip', 'rstrip', 'lstrip') and file_line(t[1][1])
+                if s_[0] == 'sub' and file_line(s_[1]) and s_[2][0] == 'slice':
+                    cut.append(show(s_)[:80])
+                if s_[0] == 'sub' and s_[2][0] == 'const' and s_[1][0] == 'call' and s_[1][1][0] == 'attr' and file_line(s_[1][1][1]) \
+                        and s_[1][1][2] in ('partition', 'rpartition', 'split', 'rsplit') and s_[1][2] and s_[1][2][0] != C(' '):
+                    cut.append(show(s_)[:80])
     if not seen:
         raise AnalysisError('%s: read_auto never constructs the line reader' % RD)
+    rep.check(not cut, R, w, 'read_auto:whole-line', 'the reader gets the whole line (only surrounding blanks removed)',
+              'only a part of the line reaches the reader: %s -- a word or tag containing the marker is cut off' % sorted(set(cut))[:2])
     rep.check(not bad, R, w, 'read_auto:field-wise-repair', 'treebank glitches are repaired on whole fields only; every other field reaches the reader as written',
               'the line is rewritten as a whole before it is read: %s -- fields that only contain the pattern are changed too' % sorted(set(bad))[:2])
 
@@ -230,6 +245,11 @@ def check(repo, rep, tier):
             rep.check(mkb[0][2][0] == catp[0], 'R8.2', wt_, 'parse_tree:binary-cat', 'the node category is the parsed field', 'node category is %s' % show(mkb[0][2][0])[:60])
         if mku:
             seen_un = True
+        r_ = st.ret
+        built = r_ is not None and r_[0] == 'call' and r_[1] in (A(N('Tree'), 'make_binary'), A(N('Tree'), 'make_unary')) and \
+            (r_[2][0] if r_[2] else dict(r_[3]).get('cat')) == catp[0]
+        rep.check(built, 'R8.2', wt_, 'parse_tree:node-kept', 'every node record read yields a node of its own, carrying the category of the record',
+                  'a node record is read but the value returned is %s: the node (and its category) disappears from the tree' % (show(r_)[:60] if r_ else None))
     rep.check(seen_bin and seen_un, 'R8.2', wt_, 'parse_tree:arity', 'both unary and binary nodes are rebuilt', 'binary path: %s, unary path: %s' % (seen_bin, seen_un))
     # child loop: read children until the closing bracket, then consume it
     loop_ok = False
